@@ -298,6 +298,7 @@ def main(argv=None):
     # new violations: verify replay in a fresh interpreter
     reported = set()
     nviol = 0
+    hist_trials = [0]
     for v in m["violations"]:
         if v["fp"] in reported:
             continue
@@ -336,6 +337,64 @@ def main(argv=None):
                 with open(v["replay"], "w") as f:
                     json.dump(rp, f, sort_keys=True, indent=1)
                 v["violation"] = res["violation"]
+        if not ok and rp.get("worker") and hist_trials[0] < 2:
+            hist_trials[0] += 1
+            # Neither the minimised nor the original session fails on its own in a fresh
+            # interpreter: the violation needs the sessions that ran before it in the
+            # same worker (hidden process-global state). Replay that history, then
+            # shorten it with a few fresh-interpreter trials.
+            wk = rp["worker"]
+            seeds = [wk["start"] + i for i in range(wk["offset"], wk["count"], wk["stride"])
+                     if wk["start"] + i <= v["seed"]]
+            vu = rp.get("violation_unshrunk") or v["violation"]
+
+            def try_history(sds):
+                rp2 = dict(rp)
+                rp2["history"] = {"seeds": sds, "tier": rp.get("tier", tier), "config": rp.get("config", "default")}
+                rp2["plan"] = None
+                rp2["plan_unshrunk"] = None
+                rp2["violation"] = vu
+                with open(v["replay"] + ".hist", "w") as f:
+                    json.dump(rp2, f, sort_keys=True)
+                try:
+                    rc2, res2, out2, err2 = replay_file(v["replay"] + ".hist", args.root, cenv)
+                except Exception:
+                    return None
+                if res2 and res2["violation"] and res2["violation"]["invariant"] == vu.get("invariant"):
+                    return res2["violation"]
+                return None
+            hv = try_history(seeds)
+            if hv is not None:
+                trials = 0
+                keep = seeds
+                # greedy halving of the predecessor list (the last seed always stays)
+                chunk = max(1, (len(keep) - 1) // 2)
+                while chunk >= 1 and trials < 10 and len(keep) > 1:
+                    i = 0
+                    progressed = False
+                    while i < len(keep) - 1 and trials < 10:
+                        cand = keep[:i] + keep[i + chunk:] if i + chunk < len(keep) else keep[:i] + keep[-1:]
+                        if cand[-1] != keep[-1]:
+                            cand = cand + [keep[-1]]
+                        trials += 1
+                        hv2 = try_history(cand)
+                        if hv2 is not None:
+                            keep, hv, progressed = cand, hv2, True
+                        else:
+                            i += chunk
+                    if not progressed or chunk == 1:
+                        chunk //= 2
+                try_history(keep)
+                os.replace(v["replay"] + ".hist", v["replay"])
+                v["violation"] = hv
+                ok = True
+                print("NOTE property=%s the violation below depends on process history: %d session(s) in one interpreter"
+                      % (prop, len(keep)))
+            else:
+                try:
+                    os.remove(v["replay"] + ".hist")
+                except OSError:
+                    pass
         if ok:
             nviol += 1
             exit_code = 1
